@@ -15,9 +15,10 @@ import (
 // system under test, nothing long-lived inside.
 
 type RefEntry struct {
-	Diags []Diag `json:"diags"`
-	Panic string `json:"panic,omitempty"`
-	Err   string `json:"err,omitempty"` // constructor error
+	Diags []Diag   `json:"diags"`
+	Panic string   `json:"panic,omitempty"`
+	Err   string   `json:"err,omitempty"`   // constructor error
+	Other []string `json:"other,omitempty"` // front-end level: printed records that are not diagnostics
 }
 
 type RefTable struct {
@@ -149,11 +150,89 @@ func (w *Worker) computeRef(info *linter.CheckerInfo, params map[string]any, goV
 	return
 }
 
+// twinOrder is the file-registration order of the twin (reference) corpus: a
+// function of VERIF_SEED and the file path only, so every process of a check
+// builds the same twin whatever subset of the corpus it loads.
+func (w *Worker) twinOrder() FsetOrder {
+	return FsetOrder{Policy: 2, Seed: w.job.Seed ^ 0x7477696e}
+}
+
+// refDiagsCLI is the reference of the front-end level engines: what a FRESH
+// command-line program (real flag parsing, parameter assignment, checker
+// construction, checkPackage/checkFile) prints for this one file when it is the
+// first and only thing it analyses - the left-hand side of the property
+// statement, obtained through the same front-end as the execution it is
+// compared with, so that whatever the front-end derives per package (for
+// instance from the package's module) is part of both.
+func (w *Worker) refDiagsCLI(checker string, params map[string]any, goVersion, pkg string, file int, declSeed uint64) *RefEntry {
+	info := w.infoBy[checker]
+	if info == nil {
+		return &RefEntry{Err: "unknown checker"}
+	}
+	key := "cli|" + checker + "|" + paramDigest(info, params) + "|" + goVersion + "|" + pkg + "|" + fmt.Sprint(file)
+	if declSeed != 0 {
+		key += fmt.Sprintf("|perm%d", declSeed)
+	}
+	if e, ok := w.refTable.Entries[key]; ok {
+		return e
+	}
+	e := w.computeRefCLI(info, params, goVersion, pkg, file, declSeed)
+	w.refTable.Entries[key] = e
+	w.refTable.computed++
+	return e
+}
+
+func (w *Worker) computeRefCLI(info *linter.CheckerInfo, params map[string]any, goVersion, pkg string, file int, declSeed uint64) (e *RefEntry) {
+	e = &RefEntry{}
+	ref := w.refCorpus()
+	cp := ref.Pkgs[pkg]
+	if cp == nil {
+		e.Err = "package not in reference corpus"
+		return
+	}
+	wl := &Workload{Checkers: []string{info.Name}, Params: map[string]map[string]any{}, Concurrency: 1, GoVersion: goVersion}
+	if len(params) > 0 {
+		wl.Params[info.Name] = params
+	}
+	savedRecords, savedVisit := w.sink.records, w.sink.visit
+	w.sink.records, w.sink.visit = nil, 0
+	w.restoreParams()
+	sent0, reg0 := fpSentinels(), fpRegistry()
+	defer func() {
+		if r := recover(); r != nil {
+			e.Panic = fmt.Sprint(r)
+		}
+		recs := w.sink.records
+		w.sink.records, w.sink.visit = savedRecords, savedVisit
+		w.restoreParams()
+		if fpSentinels() != sent0 {
+			w.refDirty = append(w.refDirty, [2]string{"sentinel-mutated", info.Name})
+		}
+		if fpRegistry() != reg0 {
+			w.refDirty = append(w.refDirty, [2]string{"registry-mutated", info.Name})
+		}
+		for _, r := range recs {
+			if d, ok := parseCLIRecord(pkg, r.Text); ok {
+				e.Diags = append(e.Diags, d)
+			} else {
+				e.Other = append(e.Other, r.Text)
+			}
+		}
+	}()
+	h, err := w.hooks.New(wl.Args(), ref.Fset, ref.Sizes)
+	if err != nil {
+		e.Err = err.Error()
+		return
+	}
+	w.hooks.CheckPackage(h, cp.ViewPermuted([]int{file}, declSeed))
+	return
+}
+
 // refCorpus loads the reference corpus on first use (an independent second
 // parse and type-check of the same packages, in its own file set).
 func (w *Worker) refCorpus() *Corpus {
 	if w.ref == nil {
-		c, err := LoadCorpus(w.job.RepoDir, w.need, extraCorpus())
+		c, err := LoadCorpus(w.job.RepoDir, w.need, extraCorpus(), w.twinOrder())
 		if err != nil {
 			panic("reference corpus: " + err.Error())
 		}
